@@ -15,6 +15,17 @@ def units():
         U.append(dict(base, name="ima.aiff_decode_step.ch%d" % ch, entry="h_ima_aiff", defines=["-DLAYOUT_AIFF", "-DCH=%d" % ch],
                       function="ima_adpcm.c:aiff_ima_decode_block", cbmc_flags=["--unwind", "40"],
                       kind="proof(full domain of predictor x step index x code, first two steps per channel; channels=%d)" % ch))
+    for ch in (1, 2):
+        U.append({"name": "ima.ima_read_block.ch%d" % ch, "props": ["C05", "C15", "C06"], "harness": "ima_read.harness.c", "entry": "h_ima_read_block", "enforce": "ima_read_block",
+                  "function": "ima_adpcm.c:ima_read_block", "defines": ["-DCH=%d" % ch], "timeout": 900, "backend": "kissat", "cbmc_flags": ["--object-bits", "9"],
+                  "loops": {"ima_read_block": [{"loop_id": 0, "assigns_locals": True,
+                            "assigns": "pima->blockcount, pima->samplecount, g_decode_calls, g_zero_filled, g_zero_from, psf->error, __CPROVER_object_whole (ptr), __CPROVER_object_whole (pima->samples)",
+                            "invariants": ("0 <= indx && indx <= len && indx % CHV == 0 && total == indx && 0 <= pima->samplecount && pima->samplecount <= 9 && 0 <= pima->blockcount && pima->blockcount <= (1 << 24) "
+                                           "&& 0 <= g_decode_calls && g_decode_calls <= (1 << 22) && g_zero_filled == 0 "
+                                           "&& (long) indx == ((long) g_decode_calls * 9 + pima->samplecount - vin_sc) * CHV").replace("CHV", str(ch)),
+                            "decreases": "2 * (len - indx) + (pima->samplecount >= 9 ? 1 : 0)"}]},
+                  "kind": "enumerated(samples per block 9, channels=%d)" % ch,
+                  "trusted": ["decode_block_c: effect of the block decoders on the reader state (frame contract)", "E1 memcpy / memset models for symbolic lengths (ranges asserted)"]})
     for lay, fn, chs in (("PAF", "paf24_seek", (1, 2)), ("SDS", "sds_seek", (1,))):
         for ch in chs:
             U.append({"name": "%s.%s.ch%d" % (lay.lower(), fn, ch), "props": ["C06", "C08"], "harness": "blockseek.harness.c", "entry": "h_blockseek", "enforce": fn,
